@@ -21,6 +21,8 @@ pub struct QueueReader<'a, T: Read + Seek> {
     buffer_sizes: Vec<usize>,
     byte_streams: Vec<ByteStreamReadBuffer>,
     queues: Vec<VecDeque<RecordValue>>,
+    constants: Vec<Option<RecordValue>>,
+    all_constant: bool,
 }
 
 impl<'a, T: Read + Seek> QueueReader<'a, T> {
@@ -33,6 +35,23 @@ impl<'a, T: Read + Seek> QueueReader<'a, T> {
             .seek_physical(section_header.data_offset)
             .read_err("Cannot seek to packet header")?;
 
+        // Records with a size of zero bits store no data, all their values are equal and known.
+        // They are never queued (unless there are no other records), any number of them is available.
+        let constants: Vec<Option<RecordValue>> = pc
+            .prototype
+            .iter()
+            .map(|r| match r.data_type {
+                RecordDataType::ScaledInteger { min, .. } if r.data_type.bit_size() == 0 => {
+                    Some(RecordValue::ScaledInteger(min))
+                }
+                RecordDataType::Integer { min, .. } if r.data_type.bit_size() == 0 => {
+                    Some(RecordValue::Integer(min))
+                }
+                _ => None,
+            })
+            .collect();
+        let all_constant = !constants.is_empty() && constants.iter().all(|c| c.is_some());
+
         Ok(Self {
             pc: pc.clone(),
             reader,
@@ -40,6 +59,8 @@ impl<'a, T: Read + Seek> QueueReader<'a, T> {
             buffer_sizes: vec![0; pc.prototype.len()],
             byte_streams: vec![ByteStreamReadBuffer::new(); pc.prototype.len()],
             queues: vec![VecDeque::new(); pc.prototype.len()],
+            constants,
+            all_constant,
         })
     }
 
@@ -50,7 +71,10 @@ impl<'a, T: Read + Seek> QueueReader<'a, T> {
         }
 
         let mut av = usize::MAX;
-        for q in &self.queues {
+        for (i, q) in self.queues.iter().enumerate() {
+            if self.constants[i].is_some() && !self.all_constant {
+                continue;
+            }
             let len = q.len();
             if len < av {
                 av = len;
@@ -64,9 +88,12 @@ impl<'a, T: Read + Seek> QueueReader<'a, T> {
     pub fn pop_point(&mut self, output: &mut RawValues) -> Result<()> {
         output.clear();
         for i in 0..self.pc.prototype.len() {
-            let value = self.queues[i]
-                .pop_front()
-                .internal_err("Failed to pop value for next point")?;
+            let value = match &self.constants[i] {
+                Some(value) if !self.all_constant => value.clone(),
+                _ => self.queues[i]
+                    .pop_front()
+                    .internal_err("Failed to pop value for next point")?,
+            };
             output.push(value);
         }
         Ok(())
@@ -138,25 +165,7 @@ impl<'a, T: Read + Seek> QueueReader<'a, T> {
                     self.byte_streams[i].append(&self.buffer);
                 }
 
-                // Find smallest number of expected items in any queue after stream unpacking.
-                // This is required for the corner case when the bit size of an record
-                // is zero and we don't know how many items to "unpack" from an empty buffer.
-                // This happens for example with integer values where min=max, because all values are equal.
-                let mut min_queue_size = usize::MAX;
-                for (i, bs) in self.byte_streams.iter().enumerate() {
-                    let bit_size = self.pc.prototype[i].data_type.bit_size();
-                    // We can only check records with a non-zero bit size
-                    if bit_size != 0 {
-                        let bs_items = bs.available() / bit_size;
-                        let queue_items = self.queues[i].len();
-                        let items = bs_items + queue_items;
-                        if items < min_queue_size {
-                            min_queue_size = items;
-                        }
-                    }
-                }
-
-                self.parse_byte_streams(min_queue_size)?;
+                self.parse_byte_streams()?;
             }
         };
 
@@ -166,7 +175,7 @@ impl<'a, T: Read + Seek> QueueReader<'a, T> {
     }
 
     /// Extracts raw values from byte streams into queues.
-    fn parse_byte_streams(&mut self, min_queue_size: usize) -> Result<()> {
+    fn parse_byte_streams(&mut self) -> Result<()> {
         for (i, r) in self.pc.prototype.iter().enumerate() {
             match r.data_type {
                 RecordDataType::Single { .. } => {
@@ -176,16 +185,8 @@ impl<'a, T: Read + Seek> QueueReader<'a, T> {
                     BitPack::unpack_doubles(&mut self.byte_streams[i], &mut self.queues[i])?
                 }
                 RecordDataType::ScaledInteger { min, max, .. } => {
-                    if r.data_type.bit_size() == 0 {
-                        // If the bit size of an record is zero, we don't know how many items to unpack.
-                        // Thats because they are not really unpacked, but instead generated with a predefined value.
-                        // Since this can only happen when min=max we know that min is the expected value.
-                        // We use the supplied minimal size to ensure that we create enough items
-                        // to fill the queue enough to not be the limiting queue.
-                        while self.queues[i].len() < min_queue_size {
-                            self.queues[i].push_back(RecordValue::ScaledInteger(min));
-                        }
-                    } else {
+                    // Records with a bit size of zero have nothing to unpack, see `constants`
+                    if r.data_type.bit_size() != 0 {
                         BitPack::unpack_scaled_ints(
                             &mut self.byte_streams[i],
                             min,
@@ -195,12 +196,7 @@ impl<'a, T: Read + Seek> QueueReader<'a, T> {
                     }
                 }
                 RecordDataType::Integer { min, max } => {
-                    if r.data_type.bit_size() == 0 {
-                        // See comment above for scaled integers!
-                        while self.queues[i].len() < min_queue_size {
-                            self.queues[i].push_back(RecordValue::Integer(min));
-                        }
-                    } else {
+                    if r.data_type.bit_size() != 0 {
                         BitPack::unpack_ints(
                             &mut self.byte_streams[i],
                             min,
